@@ -132,6 +132,40 @@ func (m *mon) onApply(ev chaingen.ApplyEvent) {
 			}
 		}
 	}
+	// every element an accepted block consumes is reported as consumed: a consumer of the update that is not told
+	// keeps the element as live and can offer it again
+	reported := map[[32]byte]bool{}
+	for _, id := range ids {
+		reported[id] = true
+	}
+	consumed := func(id [32]byte, what string) {
+		m.b.Count("block_inputs_matched_against_reported_uses", 1)
+		if !reported[id] {
+			m.b.Violate("C02/trace/consumed-element-not-reported-"+what+m.ctx, fmt.Sprintf("the accepted block at height %d consumes element %x, which its update does not report as %s", h, id[:8], what), map[string]any{"height": h})
+		}
+	}
+	for _, t := range ev.Block.Transactions {
+		for _, in := range t.SiacoinInputs {
+			consumed(in.ParentID, "spent")
+		}
+		for _, in := range t.SiafundInputs {
+			consumed(in.ParentID, "spent")
+		}
+		for _, sp := range t.StorageProofs {
+			consumed(sp.ParentID, "resolved")
+		}
+	}
+	for _, t := range ev.Block.V2Transactions() {
+		for _, in := range t.SiacoinInputs {
+			consumed(in.Parent.ID, "spent")
+		}
+		for _, in := range t.SiafundInputs {
+			consumed(in.Parent.ID, "spent")
+		}
+		for _, r := range t.FileContractResolutions {
+			consumed(r.Parent.ID, "resolved")
+		}
+	}
 	m.log = append(m.log, ids)
 	m.logM = append(m.logM, mids)
 	m.b.Count("trace_uses_checked", len(ids))
@@ -626,6 +660,18 @@ func (m *mon) variants(cs consensus.State, orig types.Block) []variant {
 					b := chaingen.CloneBlock(orig)
 					b.V2.Transactions = append(b.V2.Transactions, t2)
 					add("v2-renewal-then-second-funded-renewal-txn", b)
+					// the same, inside the renewing transaction itself
+					if !referenced(&orig, v2OutIDs(t), -1, i) {
+						b := chaingen.CloneBlock(orig)
+						tt := &b.V2.Transactions[i]
+						tt.SiacoinInputs = append(tt.SiacoinInputs, types.V2SiacoinInput{Parent: e.Copy(), SatisfiedPolicy: types.SatisfiedPolicy{Policy: l.Policy}})
+						tt.FileContractResolutions = append(tt.FileContractResolutions, chaingen.CloneV2(*t).FileContractResolutions[0])
+						if rest := e.SiacoinOutput.Value.Sub(need); !rest.IsZero() {
+							tt.SiacoinOutputs = append(tt.SiacoinOutputs, types.SiacoinOutput{Value: rest, Address: dest})
+						}
+						c.SignV2(cs, tt, nil)
+						add("v2-two-funded-renewals-of-one-contract-in-one-txn", b)
+					}
 					break
 				}
 			}
@@ -789,6 +835,6 @@ func main() {
 		Run:         run,
 		MinEvals:    2000,
 		MinDistinct: 60,
-		Require:     []string{"directed_legacy_alias_histories_run", "blocks_applied", "blocks_reverted", "trace_uses_checked", "second_use_variants", "second_use_rejected"},
+		Require:     []string{"directed_legacy_alias_histories_run", "blocks_applied", "blocks_reverted", "trace_uses_checked", "second_use_variants", "second_use_rejected", "block_inputs_matched_against_reported_uses"},
 	})
 }
